@@ -44,6 +44,10 @@ def run(ctx) -> None:
     _check_target_fields(ctx)
     _check_repetitions(ctx)
     _check_suffix_optimisation(ctx)
+    # the program is emitted with the pattern text as comments: a comment that ends early corrupts the emitted program (shared with C20)
+    ctx.rule("BLOCK-END", "pattern text interpolated into /* ... */ comments of pattern.cpp cannot end the comment (shared with C20)", floor=1)
+    from . import c20 as _c20
+    _c20.check_inline_block_comments(ctx)
     for key in (f"{RV}:_relabel_in_place", f"{RV}:_write_recursively", f"{RV}:_recursively_convert_node_for_public", "cpp.lib._generate_pattern:_write_instructions_recursively", f"{RV}:_remove_noop_in_place"):
         exh.check_exh1(ctx, p.func(key), "EXH1")
     seq.check_sequence(ctx, p.func(f"{RV}:translate"), "SEQ", ["transform", "_relabel_in_place", "_remove_noop_in_place"], lambda n: n.kind == "return")
